@@ -361,10 +361,100 @@ def rvalue_operands(rv):
     return []
 
 
+BASELINE = None
+
+
+def baseline_paths():
+    """Definition paths of the pinned tree (sa/baseline_defs.json): the names the rules are written against."""
+    global BASELINE
+    if BASELINE is None:
+        import os
+        p = os.path.join(os.path.dirname(os.path.dirname(os.path.abspath(__file__))), "baseline_defs.json")
+        try:
+            with open(p) as f:
+                BASELINE = set(json.load(f))
+        except OSError:
+            BASELINE = set()
+    return BASELINE
+
+
+def def_paths(raw):
+    out = set()
+    for k in ("adts", "consts", "statics", "mods"):
+        for x in raw.get(k, []):
+            out.add(x["path"])
+    for b in raw.get("bodies", []):
+        out.add(b["path"])
+    for i in raw.get("impls", []):
+        if i.get("trait"):
+            out.add(i["trait"])
+    return out
+
+
+def canonical_rewrites(raw):
+    """Items that were moved to another module (and re-exported / re-imported under their old name) or whose inherent impl
+    block now lives in another module keep the path the rules know them by: [(current path, baseline path)]."""
+    import re
+    base = baseline_paths()
+    if not base:
+        return []
+    cur = def_paths(raw)
+    rw = {}
+    for r in raw.get("reexports", []):
+        a, t = r["alias"], r["target"]
+        if t not in base and a in base and t in cur and a not in cur:
+            rw[t] = a
+    # second pass: after renaming types, methods of inherent impls placed in another module
+    rx = re.compile(r"^crate::(?:[a-z_][a-z0-9_]*::)*<impl ([A-Za-z0-9_:<>, ]+)>::([A-Za-z0-9_]+)$")
+    for b in raw.get("bodies", []):
+        p = b["path"]
+        if p in base:
+            continue
+        m = rx.match(p)
+        if m:
+            ty = m.group(1)
+            for t, a in rw.items():
+                ty = re.sub(re.escape(t) + r"(?![A-Za-z0-9_])", a, ty)
+            q = "%s::%s" % (ty, m.group(2))
+            if q in base and q not in cur:
+                rw[p] = q
+    # third pass: trait impls that moved with their type: `crate::m::<impl Tr for Ty>::f` is printed `<Ty as Tr>::f` or
+    # `crate::<impl Tr for Ty>::f` depending on where the impl sits
+    rx2 = re.compile(r"^crate::((?:[a-z_][a-z0-9_]*::)*)<impl (.+) for (.+)>::([A-Za-z0-9_]+)$")
+    for b in raw.get("bodies", []):
+        p = b["path"]
+        if p in base or p in rw:
+            continue
+        m = rx2.match(p)
+        if not m:
+            continue
+        mods, tr, ty, nm = m.groups()
+        for t, a in rw.items():
+            tr = re.sub(re.escape(t) + r"(?![A-Za-z0-9_])", a, tr)
+            ty = re.sub(re.escape(t) + r"(?![A-Za-z0-9_])", a, ty)
+        segs = [x for x in mods.split("::") if x]
+        cands = ["<%s as %s>::%s" % (ty, tr, nm)]
+        for k in range(len(segs) - 1, -1, -1):
+            cands.append("crate::%s<impl %s for %s>::%s" % ("".join(x + "::" for x in segs[:k]), tr, ty, nm))
+        for q in cands:
+            if q in base and q not in cur and q != p:
+                rw[p] = q
+                break
+    return sorted(rw.items(), key=lambda kv: -len(kv[0]))
+
+
 class Facts:
     def __init__(self, path):
         with open(path) as f:
-            self.raw = json.load(f)
+            text = f.read()
+        self.raw = json.loads(text)
+        rws = canonical_rewrites(self.raw)
+        if rws:
+            import re
+            for old, new in rws:
+                text = re.sub(re.escape(json.dumps(old)[1:-1]) + r"(?![A-Za-z0-9_])", lambda m, n=json.dumps(new)[1:-1]: n, text)
+            self.raw = json.loads(text)
+        self.rewrites = rws
         self.path = path
         self.config = self.raw["config"]
         self.bodies = {}
